@@ -1,452 +1,225 @@
-(* Css/DeclProofs.v -- lemmas about the declaration pipeline model (Css/Decl.v):
-   per-declaration independence, spelling irrelevance, shorthand semantics. *)
-From Coq Require Import List NArith ZArith QArith Bool Lia.
-From Verif Require Import Css.DeclTok Css.Decl Css.VarSubst Css.DeclSpec.
+(* Css/DeclProofs.v -- parseDeclaration (model Css/Parse.v, repaired code) computes
+   CSS Syntax 3 5.4.6 (Css/DeclSpec.v): name, colon, value, !important. *)
+From Verif Require Import Base.GoSem Css.Token Css.Tok Css.Parse Css.DeclSpec.
+From Coq Require Import List NArith ZArith Bool Lia ZifyBool ZifyNat ZifyN.
 Import ListNotations.
+Open Scope N_scope.
 
-(* ------------------------------------------------------------ strings *)
+Arguments N.eqb : simpl never.
 
-Lemma str_eqb_refl s : str_eqb s s = true.
-Proof. induction s as [|c s IH]; simpl; [reflexivity|]. now rewrite N.eqb_refl, IH. Qed.
+(* ------------------------------------------------------------------ the predicates coincide *)
+Lemma str_eqb_codes a b : str_eqb a b = codes_eqb a b.
+Proof. revert b; induction a as [|x a IH]; intros [|y b]; simpl; rewrite ?IH; reflexivity. Qed.
 
-Lemma str_eqb_eq a b : str_eqb a b = true <-> a = b.
+Lemma is_bang_spec t : is_literal t s_bang = delim_is t 33.
 Proof.
-  split.
-  - revert b. induction a as [|x a IH]; intros [|y b] H; simpl in H; try discriminate; [reflexivity|].
-    apply andb_true_iff in H as [H1 H2]. apply N.eqb_eq in H1. subst. f_equal. now apply IH.
-  - intros ->. apply str_eqb_refl.
+  destruct t; try reflexivity. simpl. unfold s_bang.
+  destruct v as [|d [|e v]]; simpl; rewrite ?andb_true_r, ?andb_false_r; reflexivity.
 Qed.
 
-Lemma str_eqb_neq a b : str_eqb a b = false <-> a <> b.
+Lemma is_colon_spec t : is_literal t s_colon = delim_is t 58.
 Proof.
-  split.
-  - intros H E. apply str_eqb_eq in E. congruence.
-  - intros H. destruct (str_eqb a b) eqn:E; [|reflexivity]. apply str_eqb_eq in E. contradiction.
+  destruct t; try reflexivity. simpl. unfold s_colon.
+  destruct v as [|d [|e v]]; simpl; rewrite ?andb_true_r, ?andb_false_r; reflexivity.
 Qed.
 
-Lemma in_table_In l n : in_table l n = true <-> In n l.
+Definition is_imp (t : token) : bool :=
+  match t with TIdent _ v => str_eqb (ascii_lower v) s_important | _ => false end.
+
+Lemma is_imp_spec t : is_imp t = ident_is_important t.
+Proof. destruct t; reflexivity. Qed.
+
+Lemma wsc_spec t : is_ws_or_comment t = wsc t.
+Proof. destruct t; reflexivity. Qed.
+
+(* ------------------------------------------------------------------ the state machine *)
+Lemma decl_loop_snoc fxp : forall l a i t,
+  decl_loop fxp a i (l ++ [t]) = decl_step fxp (decl_loop fxp a i l) (i + length l)%nat t.
 Proof.
-  unfold in_table. rewrite existsb_exists. split.
-  - intros [x [Hin Hx]]. apply str_eqb_eq in Hx. now subst.
-  - intros H. exists n. split; [assumption|apply str_eqb_refl].
+  induction l as [|x l IH]; intros a i t; simpl.
+  - rewrite Nat.add_0_r. reflexivity.
+  - rewrite IH. f_equal. lia.
 Qed.
 
-Lemma lower_char_idem c : lower_char (lower_char c) = lower_char c.
+Lemma drop_wsc_app w l : forallb wsc w = true -> drop_wsc (w ++ l) = drop_wsc l.
+Proof. induction w as [|x w IH]; simpl; [reflexivity|]. intros H. apply andb_prop in H as [H1 H2]. rewrite H1. auto. Qed.
+
+Lemma drop_wsc_head t l : wsc t = false -> drop_wsc (t :: l) = t :: l.
+Proof. intros H. simpl. rewrite H. reflexivity. Qed.
+
+Lemma forallb_rev (p : token -> bool) l : forallb p (rev l) = forallb p l.
 Proof.
-  unfold lower_char.
-  destruct (N.leb 65 c && N.leb c 90)%bool eqn:E; [|now rewrite E].
-  apply andb_true_iff in E as [E1 E2]. apply N.leb_le in E1, E2.
-  destruct (N.leb 65 (c + 32) && N.leb (c + 32) 90)%bool eqn:E'; [|reflexivity].
-  apply andb_true_iff in E' as [_ E4]. apply N.leb_le in E4. lia.
+  induction l as [|x l IH]; [reflexivity|]. simpl. rewrite forallb_app. simpl. rewrite IH.
+  rewrite andb_true_r. apply andb_comm.
 Qed.
 
-Lemma ascii_lower_idem s : ascii_lower (ascii_lower s) = ascii_lower s.
-Proof. unfold ascii_lower. rewrite map_map. apply map_ext. intros; apply lower_char_idem. Qed.
+Ltac norm_rev := repeat (rewrite rev_app_distr; cbn [rev]); repeat (rewrite <- app_assoc; cbn [app]).
 
-Lemma lower_char_dash c : N.eqb dash (lower_char c) = N.eqb dash c.
-Proof.
-  unfold lower_char, dash.
-  destruct (N.leb 65 c && N.leb c 90)%bool eqn:E; [|reflexivity].
-  apply andb_true_iff in E as [E1 E2]. apply N.leb_le in E1, E2.
-  destruct (N.eqb_spec 45 (c + 32)); destruct (N.eqb_spec 45 c); try reflexivity; lia.
-Qed.
+Definition tail_bang (l : list token) : bool :=
+  match drop_wsc (rev l) with b :: _ => delim_is b 33 | [] => false end.
 
-Lemma is_custom_name_lower s : is_custom_name (ascii_lower s) = is_custom_name s.
-Proof.
-  unfold is_custom_name, ascii_lower.
-  destruct s as [|a [|b r]]; cbn [map has_prefix]; try reflexivity.
-  - now rewrite lower_char_dash.
-  - now rewrite !lower_char_dash.
-Qed.
-
-(* ------------------------------------------------------------ the loop *)
-
-Section Pipeline.
-  Variable known : str -> bool.
-  Variable validate : str -> list tok -> option value.
-  Variable parse_color : tok -> color.
-  Variable other_expander : str -> option (list tok -> option (list nprop)).
-
-  Notation pre1 := (preprocess_one known validate parse_color other_expander).
-  Notation pre := (preprocess known validate parse_color other_expander).
-  Notation ploop := (preprocess_loop known validate parse_color other_expander).
-  Notation is_valid := (valid known validate parse_color other_expander).
-
-  Lemma preprocess_loop_spec ds acc : ploop ds acc = acc ++ flat_map pre1 ds.
-  Proof.
-    revert acc. induction ds as [|d r IH]; intros acc; simpl.
-    - now rewrite app_nil_r.
-    - rewrite IH. now rewrite app_assoc.
-  Qed.
-
-  Lemma preprocess_flat_map ds : pre ds = flat_map pre1 ds.
-  Proof. unfold preprocess. now rewrite preprocess_loop_spec. Qed.
-
-  Lemma flat_map_filter_valid ds : flat_map pre1 (filter is_valid ds) = flat_map pre1 ds.
-  Proof.
-    induction ds as [|d r IH]; simpl; [reflexivity|].
-    unfold valid at 1. destruct (pre1 d) eqn:E; simpl.
-    - exact IH.
-    - rewrite E. simpl. now rewrite IH.
-  Qed.
-
-  (* the Go loop keeps, in order, exactly what each declaration yields on its
-     own; the declarations it drops can be removed from the block *)
-  Theorem bad_declarations_dropped_alone ds :
-    pre ds = pre (filter is_valid ds) /\ pre ds = flat_map pre1 ds.
-  Proof.
-    split; [|apply preprocess_flat_map].
-    rewrite !preprocess_flat_map. now rewrite flat_map_filter_valid.
-  Qed.
-
-  Theorem preprocess_app l1 l2 : pre (l1 ++ l2) = pre l1 ++ pre l2.
-  Proof. rewrite !preprocess_flat_map. apply flat_map_app. Qed.
-
-  (* inserting or deleting an invalid / unknown declaration anywhere changes nothing *)
-  Theorem invalid_declaration_irrelevant l1 d l2 :
-    is_valid d = false -> pre (l1 ++ d :: l2) = pre (l1 ++ l2).
-  Proof.
-    intros H. rewrite !preprocess_app. f_equal.
-    change (d :: l2) with ([d] ++ l2). rewrite preprocess_app.
-    unfold valid in H. rewrite preprocess_flat_map. simpl.
-    destruct (pre1 d); [reflexivity|discriminate].
-  Qed.
-
-  (* every other declaration keeps exactly the effect it has alone *)
-  Theorem declaration_effect_local l1 d l2 :
-    pre (l1 ++ d :: l2) = pre l1 ++ pre1 d ++ pre l2.
-  Proof.
-    rewrite preprocess_app. f_equal.
-    change (d :: l2) with ([d] ++ l2). rewrite preprocess_app.
-    rewrite (preprocess_flat_map [d]). simpl. now rewrite app_nil_r.
-  Qed.
-
-  (* ---------------------------------------------------------- spelling: names *)
-
-  Theorem name_case_insensitive n n' v i :
-    is_custom_name n = false -> is_custom_name n' = false -> same_word n n' ->
-    pre1 (RDecl n v i) = pre1 (RDecl n' v i).
-  Proof.
-    intros Hn Hn' Hs. unfold preprocess_one. rewrite Hn, Hn'. unfold same_word in Hs. now rewrite Hs.
-  Qed.
-
-  Corollary name_lowercase n v i :
-    is_custom_name n = false -> pre1 (RDecl n v i) = pre1 (RDecl (ascii_lower n) v i).
-  Proof.
-    intros H. apply name_case_insensitive; [assumption|now rewrite is_custom_name_lower|].
-    unfold same_word. now rewrite ascii_lower_idem.
-  Qed.
-
-  (* ---------------------------------------------------------- spelling: whitespace *)
-
-  Theorem top_level_trivia_irrelevant n v v' i :
-    remove_whitespace v = remove_whitespace v' -> pre1 (RDecl n v i) = pre1 (RDecl n v' i).
-  Proof. intros H. unfold preprocess_one. now rewrite H. Qed.
-
-End Pipeline.
-
-(* whitespace / comment insertion between top-level component values *)
-Inductive ws_variant : list tok -> list tok -> Prop :=
-| WvNil : ws_variant [] []
-| WvSame t r r' : ws_variant r r' -> ws_variant (t :: r) (t :: r')
-| WvL t r r' : is_trivia t = true -> ws_variant r r' -> ws_variant (t :: r) r'
-| WvR t r r' : is_trivia t = true -> ws_variant r r' -> ws_variant r (t :: r').
-
-Lemma ws_variant_remove v v' : ws_variant v v' -> remove_whitespace v = remove_whitespace v'.
-Proof.
-  induction 1 as [|t r r' _ IH|t r r' Ht _ IH|t r r' Ht _ IH]; unfold remove_whitespace in *; simpl.
-  - reflexivity.
-  - destruct (is_trivia t); simpl; now rewrite IH.
-  - now rewrite Ht.
-  - now rewrite Ht.
-Qed.
-
-Theorem whitespace_comment_irrelevant known validate pc oe n v v' i :
-  ws_variant v v' ->
-  preprocess_one known validate pc oe (RDecl n v i) = preprocess_one known validate pc oe (RDecl n v' i).
-Proof. intros H. apply top_level_trivia_irrelevant. now apply ws_variant_remove. Qed.
-
-(* ------------------------------------------------------------ projection *)
-
-Lemma same_word_custom v w : same_word v w -> is_custom_name v = is_custom_name w.
-Proof. unfold same_word. intros H. rewrite <- (is_custom_name_lower v), <- (is_custom_name_lower w). now rewrite H. Qed.
-
-(* the projection's inner loop is proj_toks *)
-Lemma proj_tok_func n a : proj_tok (TFunc n a) = TFunc (ascii_lower n) (proj_toks a).
-Proof. reflexivity. Qed.
-
-Lemma proj_tok_block k a : proj_tok (TBlock k a) = TBlock k (proj_toks a).
-Proof. reflexivity. Qed.
-
-(* A spelling variant (case of keywords, units, function names; comments and
-   whitespace anywhere between component values, at any depth) has the same
-   projection. *)
-Theorem spelling_variant_projection :
-  forall ts ts', sv_toks ts ts' -> proj_toks ts = proj_toks ts'.
-Proof.
-  apply (sv_toks_ind2
-           (fun t t' _ => is_trivia t = is_trivia t' /\ proj_tok t = proj_tok t')
-           (fun l l' _ => proj_toks l = proj_toks l')).
-  - intros t. split; reflexivity.
-  - intros v w Hv Hw Hs. split; [reflexivity|]. simpl. rewrite Hv, Hw. now rewrite Hs.
-  - intros q i u u' Hs. split; [reflexivity|]. simpl. now rewrite Hs.
-  - intros n n' a a' Hs _ IH. split; [reflexivity|]. rewrite !proj_tok_func. now rewrite Hs, IH.
-  - intros k a a' _ IH. split; [reflexivity|]. rewrite !proj_tok_block. now rewrite IH.
-  - reflexivity.
-  - intros t t' r r' _ [Htr Hp] _ IH. simpl. rewrite Htr, Hp, IH. reflexivity.
-  - intros t r r' Ht _ IH. simpl. now rewrite Ht.
-  - intros t r r' Ht _ IH. simpl. now rewrite Ht.
-Qed.
-
-(* ------------------------------------------------------------ shorthands *)
-
-(* a `for` loop of fallible steps, as a specification-side combinator *)
-Fixpoint seq_opt {A} (l : list (option A)) : option (list A) :=
-  match l with
-  | [] => Some []
-  | None :: _ => None
-  | Some a :: r => match seq_opt r with Some x => Some (a :: x) | None => None end
+Definition inv (l : list token) (a : dacc) : Prop :=
+  match d_state a with
+  | SBang => exists v b w, l = v ++ b :: w /\ delim_is b 33 = true /\ forallb wsc w = true /\ d_bang a = length v
+  | SImportant => exists v b w1 i w2, l = v ++ b :: w1 ++ i :: w2 /\ delim_is b 33 = true /\
+                    ident_is_important i = true /\ forallb wsc w1 = true /\ forallb wsc w2 = true /\
+                    d_bang a = length v
+  | SValue => tail_bang l = false /\ snd (spec_important l) = false
   end.
 
-Lemma map_opt_seq {A B} (f : A -> option B) l : map_opt f l = seq_opt (map f l).
+Lemma bang_not_wsc b : delim_is b 33 = true -> wsc b = false.
+Proof. destruct b; try discriminate; reflexivity. Qed.
+Lemma imp_not_wsc i : ident_is_important i = true -> wsc i = false.
+Proof. destruct i; try discriminate; reflexivity. Qed.
+Lemma bang_not_imp b : delim_is b 33 = true -> ident_is_important b = false.
+Proof. destruct b; try discriminate; reflexivity. Qed.
+Lemma imp_not_bang i : ident_is_important i = true -> delim_is i 33 = false.
+Proof. destruct i; try discriminate; reflexivity. Qed.
+
+Lemma inv_step l a t : inv l a -> inv (l ++ [t]) (decl_step true a (length l) t).
 Proof.
-  induction l as [|a r IH]; simpl; [reflexivity|].
-  destruct (f a); [|reflexivity]. now rewrite IH.
+  intros Hinv. unfold decl_step.
+  rewrite is_bang_spec. fold (is_imp t). rewrite is_imp_spec.
+  assert (Hb : match d_state a with SValue => true | _ => true end = true) by (destruct (d_state a); reflexivity).
+  rewrite Hb. cbn [andb].
+  destruct (delim_is t 33) eqn:Ebang.
+  { (* a bang: SBang at this index *)
+    unfold inv. cbn [d_state d_bang]. exists l, t, []. repeat split; auto. }
+  destruct ((match d_state a with SBang => true | _ => false end) && ident_is_important t) eqn:Eimp.
+  { apply andb_prop in Eimp as [Es Ei]. unfold inv in *. cbn [d_state d_bang].
+    destruct (d_state a); try discriminate.
+    destruct Hinv as (v & b & w & -> & Hb1 & Hw & Hbang).
+    exists v, b, w, t, []. rewrite <- app_assoc. repeat split; auto. }
+  (* whitespace / comment: unchanged; anything else: SValue *)
+  destruct (wsc t) eqn:Ew.
+  { assert (Hsame : (match t with
+                     | TWhitespace _ _ | TComment _ _ => a
+                     | TCurly _ _ => if d_cnw a then mkD SValue (d_bang a) true true
+                                     else mkD SValue (d_bang a) true (d_csb a)
+                     | _ => mkD SValue (d_bang a) true (d_csb a) end) = a)
+      by (destruct t; try discriminate; reflexivity).
+    rewrite Hsame. unfold inv in *. destruct (d_state a).
+    - (* SValue *) destruct Hinv as [H1 H2]. unfold tail_bang, spec_important in *.
+      rewrite rev_app_distr. cbn [rev app]. cbn [drop_wsc]. rewrite Ew.
+      split; [exact H1|].
+      destruct (drop_wsc (rev l)) as [|i r1]; [reflexivity|].
+      destruct (ident_is_important i); [|reflexivity].
+      destruct (drop_wsc r1) as [|b r2]; [reflexivity|].
+      destruct (delim_is b 33); [discriminate|reflexivity].
+    - (* SImportant *) destruct Hinv as (v & b & w1 & i & w2 & -> & Hb1 & Hi & Hw1 & Hw2 & Hbang).
+      exists v, b, w1, i, (w2 ++ [t]). rewrite <- !app_assoc. cbn [app]. rewrite <- !app_assoc. cbn [app].
+      repeat split; auto. rewrite forallb_app. simpl. rewrite Hw2, Ew. reflexivity.
+    - (* SBang *) destruct Hinv as (v & b & w & -> & Hb1 & Hw & Hbang).
+      exists v, b, (w ++ [t]). rewrite <- !app_assoc. cbn [app].
+      repeat split; auto. rewrite forallb_app. simpl. rewrite Hw, Ew. reflexivity. }
+  (* t is a significant token, not a bang; either not "important" or not after a bang *)
+  assert (Hnew : d_state (match t with
+                     | TWhitespace _ _ | TComment _ _ => a
+                     | TCurly _ _ => if d_cnw a then mkD SValue (d_bang a) true true
+                                     else mkD SValue (d_bang a) true (d_csb a)
+                     | _ => mkD SValue (d_bang a) true (d_csb a) end) = SValue).
+  { destruct t; try discriminate; try reflexivity. destruct (d_cnw a); reflexivity. }
+  unfold inv. rewrite Hnew.
+  unfold tail_bang, spec_important. rewrite rev_app_distr. cbn [rev app]. rewrite (drop_wsc_head _ _ Ew).
+  split; [exact Ebang|].
+  destruct (ident_is_important t) eqn:Ei; [|reflexivity].
+  (* "important" not after a bang: the previous significant token is not a bang *)
+  assert (Hs : match d_state a with SBang => false | _ => true end = true).
+  { destruct (d_state a); try reflexivity. simpl in Eimp. discriminate. }
+  unfold inv in Hinv. destruct (d_state a); try discriminate.
+  - destruct Hinv as [H1 _]. unfold tail_bang in H1.
+    destruct (drop_wsc (rev l)) as [|b r2]; [reflexivity|]. rewrite H1. reflexivity.
+  - destruct Hinv as (v & b & w1 & i & w2 & -> & Hb1 & Hi & Hw1 & Hw2 & Hbang).
+    norm_rev.
+    rewrite drop_wsc_app by (rewrite forallb_rev; exact Hw2).
+    rewrite (drop_wsc_head _ _ (imp_not_wsc _ Hi)). rewrite (imp_not_bang _ Hi). reflexivity.
 Qed.
 
-Definition mixed_default (tokens : list tok) : bool :=
-  Nat.ltb 1 (length tokens) && existsb (fun t => is_default_kw (get_keyword t)) tokens.
-
-Lemma four_names_shape name : exists a b c d, four_names name = [a; b; c; d].
-Proof. unfold four_names, side_suffixes. simpl. eauto. Qed.
-
-Section Shorthands.
-  Variable known : str -> bool.
-  Variable validate : str -> list tok -> option value.
-  Variable parse_color : tok -> color.
-  Variable other_expander : str -> option (list tok -> option (list nprop)).
-
-  Notation vns := (validate_non_shorthand known validate).
-  Notation four := (expand_four_sides known validate).
-
-  (* 1 to 4 values are assigned to (top, right, bottom, left) as CSS says, each
-     validated as the corresponding longhand *)
-  Theorem four_sides_spec name tokens t r b l nt nr nb nl :
-    existsb has_var tokens = false -> mixed_default tokens = false ->
-    four_sides_assign tokens t r b l -> four_names name = [nt; nr; nb; nl] ->
-    four name tokens = seq_opt [vns nt [t] true; vns nr [r] true; vns nb [b] true; vns nl [l] true].
-  Proof.
-    intros Hv Hm Ha Hn. unfold expand_four_sides, find_var. rewrite Hv, Hn.
-    unfold mixed_default in Hm.
-    destruct Ha; rewrite Hm; rewrite map_opt_seq; reflexivity.
-  Qed.
-
-  (* 0 or more than 4 values are rejected *)
-  Theorem four_sides_arity name tokens :
-    existsb has_var tokens = false -> (length tokens = 0 \/ 4 < length tokens)%nat ->
-    four name tokens = None.
-  Proof.
-    intros Hv Hl. unfold expand_four_sides, find_var. rewrite Hv.
-    destruct (_ && _)%bool; [reflexivity|].
-    destruct tokens as [|a [|b [|c [|d [|e r]]]]]; simpl in Hl; try lia; reflexivity.
-  Qed.
-
-  (* no value is assigned unless the list has 1 to 4 members *)
-  Lemma four_sides_assign_length {A} (vals : list A) t r b l :
-    four_sides_assign vals t r b l -> (1 <= length vals <= 4)%nat.
-  Proof. destruct 1; simpl; lia. Qed.
-
-  (* the CSS-wide keywords are only valid alone *)
-  Theorem four_sides_mixed_default name tokens :
-    existsb has_var tokens = false -> mixed_default tokens = true -> four name tokens = None.
-  Proof.
-    intros Hv Hm. unfold expand_four_sides, find_var. rewrite Hv.
-    unfold mixed_default in Hm. now rewrite Hm.
-  Qed.
-
-  (* a var() anywhere keeps the whole shorthand pending on each longhand *)
-  Theorem four_sides_pending name tokens :
-    existsb has_var tokens = true ->
-    four name tokens = Some (map (fun n => mkNP n (VRaw tokens) name) (four_names name)).
-  Proof. intros Hv. unfold expand_four_sides, find_var. now rewrite Hv. Qed.
-
-  (* ---- generic expander ---- *)
-
-  Notation gen := (generic_expander known validate).
-
-  Theorem generic_expander_default names wrapped sh tokens :
-    is_default_kw (get_single_keyword tokens) = true ->
-    gen names wrapped sh tokens =
-    Some (map (fun n => mkNP n (default_value (get_single_keyword tokens)) []) names).
-  Proof. intros H. unfold generic_expander. now rewrite H. Qed.
-
-  Theorem generic_expander_pending names wrapped sh tokens :
-    is_default_kw (get_single_keyword tokens) = false -> existsb has_var tokens = true ->
-    gen names wrapped sh tokens = Some (map (fun n => mkNP n (VRaw tokens) sh) names).
-  Proof. intros H Hv. unfold generic_expander, find_var. now rewrite H, Hv. Qed.
-
-  Lemma assoc_cons {A} k (v : A) n l :
-    assoc n ((k, v) :: l) = if str_eqb k n then Some v else assoc n l.
-  Proof. reflexivity. Qed.
-
-  Lemma collect_results_spec names result : forall acc results,
-    collect_results names result acc = Some results ->
-    (forall n, assoc n results = match assoc n result with Some x => Some x | None => assoc n acc end)
-    /\ (forall n x, assoc n result = Some x -> in_table names n = true /\ assoc n acc = None)
-    /\ NoDup (map fst result).
-  Proof.
-    induction result as [|[k v] r IH]; intros acc results H; simpl in H.
-    - inversion H; subst. repeat split; try (intros; discriminate). constructor.
-    - destruct (in_table names k) eqn:Hk; simpl in H; [|discriminate].
-      destruct (assoc k acc) eqn:Hacc; [discriminate|].
-      destruct (IH _ _ H) as [I1 [I2 I3]].
-      assert (Hkr : assoc k r = None).
-      { destruct (assoc k r) eqn:E; [|reflexivity].
-        destruct (I2 _ _ E) as [_ C]. rewrite assoc_cons, str_eqb_refl in C. discriminate. }
-      split; [|split].
-      + intros n. rewrite (I1 n), !assoc_cons.
-        destruct (str_eqb k n) eqn:E.
-        * apply str_eqb_eq in E. subst n. now rewrite Hkr.
-        * reflexivity.
-      + intros n x. rewrite assoc_cons. destruct (str_eqb k n) eqn:E.
-        * apply str_eqb_eq in E. subst n. intros _. now split.
-        * intros Hn. destruct (I2 _ _ Hn) as [Hin C]. rewrite assoc_cons, E in C. now split.
-      + simpl. constructor; [|assumption].
-        intros Hin. apply in_map_iff in Hin as [[k' v'] [Hf Hin]]. simpl in Hf. subst k'.
-        clear -Hin Hkr. induction r as [|[a b] r IH]; [contradiction|].
-        rewrite assoc_cons in Hkr. destruct Hin as [Heq|Hin].
-        * inversion Heq; subst. now rewrite str_eqb_refl in Hkr.
-        * destruct (str_eqb a k); [discriminate|]. now apply IH.
-  Qed.
-
-  (* Missing parts are reset to `initial`, given parts are validated as their
-     longhand, and the expander may neither name a longhand twice nor one
-     outside the shorthand. *)
-  Theorem generic_expander_resets names wrapped sh tokens props :
-    is_default_kw (get_single_keyword tokens) = false -> existsb has_var tokens = false ->
-    gen names wrapped sh tokens = Some props ->
-    exists result,
-      wrapped sh tokens = Some result
-      /\ NoDup (map fst result)
-      /\ (forall n x, assoc n result = Some x -> In n names)
-      /\ Forall2 (fun n p => match assoc n result with
-                             | Some toks => vns n toks true = Some p
-                             | None => p = mkNP n VInitial []
-                             end) names props.
-  Proof.
-    intros Hd Hv H. unfold generic_expander, find_var in H. rewrite Hd, Hv in H.
-    destruct (wrapped sh tokens) as [result|] eqn:Hw; [|discriminate].
-    destruct (collect_results names result []) as [results|] eqn:Hc; [|discriminate].
-    destruct (collect_results_spec _ _ _ _ Hc) as [I1 [I2 I3]].
-    exists result. split; [reflexivity|]. split; [assumption|]. split.
-    - intros n x Hn. apply in_table_In. now apply (I2 n x).
-    - clear Hc Hw. revert props H. generalize names at 1 2 as ns.
-      induction ns as [|n ns IH]; intros props H; simpl in H.
-      + inversion H. constructor.
-      + rewrite (I1 n) in H. simpl in H.
-        destruct (assoc n result) as [toks|] eqn:Ea.
-        * destruct (vns n toks true) as [p|] eqn:Ev; [|discriminate].
-          destruct (map_opt _ ns) as [ps|] eqn:Em; [|discriminate].
-          inversion H; subst. constructor; [now rewrite Ea|]. now apply IH.
-        * destruct (map_opt _ ns) as [ps|] eqn:Em; [|discriminate].
-          inversion H; subst. constructor; [now rewrite Ea|]. now apply IH.
-  Qed.
-
-  (* naming a longhand twice (e.g. `border: 1px 2px`) invalidates the shorthand *)
-  Theorem generic_expander_duplicate names wrapped sh tokens result :
-    is_default_kw (get_single_keyword tokens) = false -> existsb has_var tokens = false ->
-    wrapped sh tokens = Some result -> ~ NoDup (map fst result) ->
-    gen names wrapped sh tokens = None.
-  Proof.
-    intros Hd Hv Hw Hnd.
-    destruct (gen names wrapped sh tokens) as [props|] eqn:E; [|reflexivity].
-    destruct (generic_expander_resets _ _ _ _ _ Hd Hv E) as [r' [Hw' [Hn _]]].
-    rewrite Hw in Hw'. inversion Hw'; subst. contradiction.
-  Qed.
-
-  (* border-<side> classifies each component as colour, width or style *)
-  Theorem border_side_names_spec sh tokens props :
-    border_side_expander known validate parse_color sh tokens = Some props ->
-    map np_name props = border_side_names sh
-    \/ (existsb has_var tokens = false /\ is_default_kw (get_single_keyword tokens) = false).
-  Proof.
-    intros H. unfold border_side_expander in H.
-    destruct (is_default_kw (get_single_keyword tokens)) eqn:Hd.
-    - rewrite generic_expander_default in H by assumption. inversion H. left. reflexivity.
-    - destruct (existsb has_var tokens) eqn:Hv.
-      + rewrite generic_expander_pending in H by assumption. inversion H. left. reflexivity.
-      + right. now split.
-  Qed.
-
-End Shorthands.
-
-(* ------------------------------------------------------------ the modelled validators read only the projection *)
-
-Lemma get_keyword_proj t : get_keyword (proj_tok t) = get_keyword t.
+Lemma inv_loop : forall l, inv l (decl_loop true (mkD SValue 0 false false) 0 l).
 Proof.
-  destruct t; try reflexivity. cbn [proj_tok].
-  destruct (is_custom_name v); cbn [get_keyword]; [reflexivity|apply ascii_lower_idem].
+  intros l. induction l as [|t l IH] using rev_ind.
+  - simpl. unfold inv. simpl. split; reflexivity.
+  - rewrite decl_loop_snoc. simpl. apply inv_step. exact IH.
 Qed.
 
-Lemma get_length_proj t n p : get_length (proj_tok t) n p = get_length t n p.
+Lemma spec_important_false l : snd (spec_important l) = false -> spec_important l = (l, false).
 Proof.
-  destruct t; try reflexivity; cbn [proj_tok get_length].
-  - now destruct (is_custom_name v).
-  - now rewrite ascii_lower_idem.
+  unfold spec_important. destruct (drop_wsc (rev l)) as [|i r1]; [reflexivity|].
+  destruct (ident_is_important i); [|reflexivity].
+  destruct (drop_wsc r1) as [|b r2]; [reflexivity|].
+  destruct (delim_is b 33); [discriminate|reflexivity].
 Qed.
 
-Lemma proj_tok_not_trivia t : is_trivia t = false -> is_trivia (proj_tok t) = false.
-Proof. destruct t; try reflexivity; try discriminate. simpl. now destruct (is_custom_name v). Qed.
+(* important_spec: the value and the flag are those of 5.4.6 *)
+Theorem important_spec : forall rest,
+  let a := decl_loop true (mkD SValue 0 false false) 0 rest in
+  let imp := match d_state a with SImportant => true | _ => false end in
+  ((if imp then firstn (d_bang a) rest else rest), imp) = spec_important rest.
+Proof.
+  intros rest a imp. pose proof (inv_loop rest) as Hinv. fold a in Hinv. unfold inv in Hinv.
+  subst imp. destruct (d_state a).
+  - destruct Hinv as [_ H]. symmetry. apply spec_important_false. exact H.
+  - destruct Hinv as (v & b & w1 & i & w2 & -> & Hb1 & Hi & Hw1 & Hw2 & Hbang).
+    rewrite Hbang. rewrite firstn_app, Nat.sub_diag, firstn_all, firstn_O, app_nil_r.
+    unfold spec_important. norm_rev.
+    rewrite drop_wsc_app by (rewrite forallb_rev; exact Hw2).
+    rewrite (drop_wsc_head _ _ (imp_not_wsc _ Hi)). rewrite Hi.
+    rewrite drop_wsc_app by (rewrite forallb_rev; exact Hw1).
+    rewrite (drop_wsc_head _ _ (bang_not_wsc _ Hb1)). rewrite Hb1. rewrite rev_involutive. reflexivity.
+  - destruct Hinv as (v & b & w & -> & Hb1 & Hw & Hbang).
+    unfold spec_important. norm_rev.
+    rewrite drop_wsc_app by (rewrite forallb_rev; exact Hw).
+    rewrite (drop_wsc_head _ _ (bang_not_wsc _ Hb1)). rewrite (bang_not_imp _ Hb1). reflexivity.
+Qed.
 
-Section Leaves.
-  Variable pc : tok -> color.
-  Hypothesis pc_proj : forall t, pc (proj_tok t) = pc t.
+(* the code as found misses an !important that follows another bang / another !important *)
+Lemma important_orig_deviates :
+  let p := mkPos 0 0 in
+  let v := [TIdent p [120]; TLiteral p [33]; TLiteral p [33]; TIdent p s_important] in
+  d_state (decl_loop false (mkD SValue 0 false false) 0 v) = SValue /\ snd (spec_important v) = true.
+Proof. vm_compute. split; reflexivity. Qed.
 
-  (* Every modelled leaf validator gives the same typed value on a component
-     value list and on its projection: case of keywords and units does not
-     matter to them. *)
-  Theorem modelled_validators_read_projection n ts :
-    Forall (fun t => is_trivia t = false) ts ->
-    validate_modelled pc n (proj_toks ts) = validate_modelled pc n ts.
-  Proof.
-    intros Hnt.
-    assert (Hmap : proj_toks ts = map proj_tok ts).
-    { induction Hnt as [|t r Ht _ IH]; [reflexivity|]. simpl. now rewrite Ht, IH. }
-    rewrite Hmap. unfold validate_modelled.
-    destruct (leaf_validator pc n) as [f|] eqn:Ef; [|reflexivity].
-    unfold leaf_validator in Ef.
-    repeat match type of Ef with
-           | (if ?c then _ else _) = _ => destruct c
-           end; inversion Ef; subst f; clear Ef;
-      destruct ts as [|t [|t2 r]]; try reflexivity; cbn [map];
-      unfold length_perc_or_auto, length_or_percentage, bleed, border_width, border_style,
-             other_colors, color_prop, visibility, get_single_keyword, dim_value;
-      rewrite ?get_length_proj, ?get_keyword_proj, ?pc_proj; reflexivity.
-  Qed.
-End Leaves.
+(* ------------------------------------------------------------------ the whole declaration *)
+Lemma next_significant_spec l :
+  next_significant l = match drop_wsc l with t :: r => (Some t, r) | [] => (None, []) end.
+Proof.
+  induction l as [|t r IH]; [reflexivity|]. simpl. rewrite wsc_spec. destruct (wsc t); [exact IH|reflexivity].
+Qed.
 
-(* The full pipeline-level statement for keyword / unit / function-name case
-   and nested whitespace (proved: the token-level part
-   `spelling_variant_projection`, the property-name part
-   `name_case_insensitive`, the top-level whitespace part
-   `whitespace_comment_irrelevant`, and `modelled_validators_read_projection`
-   for the modelled leaves). *)
-Definition proj_value (v : value) : value :=
-  match v with VRaw ts => VRaw (proj_toks ts) | _ => v end.
-Definition proj_odecl (d : odecl) : odecl :=
-  mkOD (od_name d) (proj_value (od_value d)) (od_important d) (od_short d).
+Definition no_curly (l : list token) : Prop := Forall (fun t => is_curly t = false) l.
 
-Definition reads_projection (validate : str -> list tok -> option value) : Prop :=
-  forall n ts ts', proj_toks ts = proj_toks ts' -> validate n ts = validate n ts'.
+Lemma decl_step_csb fxp a i t : is_curly t = false -> d_csb a = false -> d_csb (decl_step fxp a i t) = false.
+Proof.
+  intros Hc Ha. unfold decl_step.
+  destruct (_ && is_literal t s_bang); [exact Ha|].
+  destruct (_ && _); [exact Ha|].
+  destruct t; try exact Ha; try discriminate.
+Qed.
 
-Definition spelling_irrelevant_statement : Prop :=
-  forall known validate pc oe,
-    reads_projection validate -> (forall t, pc (proj_tok t) = pc t) ->
-    (forall n e, oe n = Some e -> forall ts ts', proj_toks ts = proj_toks ts' ->
-                                 option_map (map (fun p => mkNP (np_name p) (proj_value (np_value p)) (np_short p))) (e ts)
-                                 = option_map (map (fun p => mkNP (np_name p) (proj_value (np_value p)) (np_short p))) (e ts')) ->
-    forall n n' v v' i,
-      (is_custom_name n = false /\ is_custom_name n' = false /\ same_word n n') \/ n = n' ->
-      sv_toks v v' ->
-      map proj_odecl (preprocess_one known validate pc oe (RDecl n v i))
-      = map proj_odecl (preprocess_one known validate pc oe (RDecl n' v' i)).
+Lemma decl_loop_csb fxp : forall l a i, no_curly l -> d_csb a = false -> d_csb (decl_loop fxp a i l) = false.
+Proof.
+  induction l as [|t l IH]; intros a i Hn Ha; [exact Ha|].
+  inversion Hn; subst. simpl. apply IH; [assumption|]. apply decl_step_csb; assumption.
+Qed.
+
+Lemma no_curly_drop l : no_curly l -> no_curly (drop_wsc l).
+Proof. induction 1; simpl; [constructor|]. destruct (wsc x); [assumption|constructor; assumption]. Qed.
+
+(* declaration_spec: for values without a top-level {} block (all of CSS Syntax
+   Level 3; the {} rule of the css-syntax draft is an extension of the implementation) *)
+Theorem declaration_spec : forall first rest nested, no_curly rest ->
+  match spec_declaration first rest with
+  | DOk n v i => exists p, parse_declaration true first rest nested = CDeclaration p n v i
+  | DError => exists p, parse_declaration true first rest nested = CParseError p errInvalid
+  end.
+Proof.
+  intros first rest nested Hn. unfold spec_declaration, parse_declaration.
+  destruct first; try (eexists; reflexivity).
+  rewrite next_significant_spec. pose proof (no_curly_drop _ Hn) as Hn'.
+  destruct (drop_wsc rest) as [|c value]; [eexists; reflexivity|].
+  rewrite is_colon_spec. destruct (delim_is c 58); cbn [negb]; [|eexists; reflexivity].
+  inversion Hn'; subst.
+  rewrite (decl_loop_csb true value _ 0%nat) by (assumption || reflexivity). cbn [andb].
+  pose proof (important_spec value) as Hi. cbv zeta in Hi.
+  destruct (spec_important value) as [v0 imp0]. inversion Hi; subst. eexists; reflexivity.
+Qed.
